@@ -36,7 +36,11 @@ def load_baseline():
     try:
         j = json.load(open(BASELINE))
         sigs = j.get("signatures") or {}
-        return {p: sigs.get(p, {}) for p in j["functions"]}
+        out = {}
+        for p in j["functions"]:
+            v = sigs.get(p, [])
+            out[p] = v if isinstance(v, list) else ([v] if v else [])     # list of the signatures seen in the feature configurations
+        return out
     except Exception:
         return None
 
@@ -50,9 +54,10 @@ def _renamed(j, baseline):
     name no longer exists in any body of this configuration. They keep their identity (and their role) — they are not inlined."""
     present = {b["path"] for b in j["bodies"]}
     gone = {}
-    for p, sig in baseline.items():
-        if p not in present and sig:
-            gone.setdefault((_module(p), json.dumps(sig, sort_keys=True)), []).append(p)
+    for p, sigs in baseline.items():
+        if p not in present:
+            for sig in sigs:
+                gone.setdefault((_module(p), json.dumps(sig, sort_keys=True)), []).append(p)
     out = {}
     if not gone:
         return out
@@ -67,9 +72,9 @@ def _renamed(j, baseline):
     def norm(sig, tyname):
         return re.sub(r"\b%s\b" % re.escape(tyname), "\u00a7", json.dumps(sig, sort_keys=True))
     gone_parents = {}
-    for p, sig in baseline.items():
-        if p not in present and sig and "::" in p and not p.startswith("<"):
-            gone_parents.setdefault(_module(p), {})[p.rsplit("::", 1)[1]] = sig
+    for p, sigs in baseline.items():
+        if p not in present and sigs and "::" in p and not p.startswith("<"):
+            gone_parents.setdefault(_module(p), {})[p.rsplit("::", 1)[1]] = sigs
     new_parents = {}
     for b in j["bodies"]:
         if b.get("def_kind") in ("Fn", "AssocFn") and b["path"] not in baseline and b["path"] not in out and "::" in b["path"] \
@@ -84,7 +89,7 @@ def _renamed(j, baseline):
             if any(_module(x) == P for x in present if x in baseline):
                 continue
             tp, tq = P.rsplit("::", 1)[-1], Q.rsplit("::", 1)[-1]
-            if all(norm(fq[m], tq) == norm(fp[m], tp) for m in fq):
+            if all(any(norm(fq[m], tq) == norm(sg, tp) for sg in fp[m]) for m in fq):
                 for m in fq:
                     out["%s::%s" % (Q, m)] = "%s::%s" % (P, m)
                 _renamed.types[Q] = P
